@@ -58,13 +58,41 @@ func (a *Application) proxyHandler(w http.ResponseWriter, r *http.Request) {
 	// so its StripPrefix is a no-op. This mirrors providerProxyHandler (line 100).
 	r.URL.Path = pr.targetPath
 
-	err = a.executeProxyRequest(ctx, w, r, endpoints, pr)
+	tracked := &responseStartedWriter{ResponseWriter: w}
+	err = a.executeProxyRequest(ctx, tracked, r, endpoints, pr)
 
 	a.logRequestResult(pr, err)
 
 	if err != nil {
-		a.handleProxyError(w, err)
+		a.handleProxyError(tracked, err)
 	}
+}
+
+// responseStartedWriter records whether anything has been written to the client, so that
+// an error is only reported when no part of a backend response has gone out yet.
+type responseStartedWriter struct {
+	http.ResponseWriter
+	started bool
+}
+
+func (t *responseStartedWriter) WriteHeader(statusCode int) {
+	t.started = true
+	t.ResponseWriter.WriteHeader(statusCode)
+}
+
+func (t *responseStartedWriter) Write(b []byte) (int, error) {
+	t.started = true
+	return t.ResponseWriter.Write(b)
+}
+
+func (t *responseStartedWriter) Flush() {
+	if f, ok := t.ResponseWriter.(http.Flusher); ok {
+		f.Flush()
+	}
+}
+
+func (t *responseStartedWriter) Unwrap() http.ResponseWriter {
+	return t.ResponseWriter
 }
 
 func (a *Application) initializeProxyRequest(r *http.Request) *proxyRequest {
@@ -332,15 +360,22 @@ func (a *Application) writeRoutingRejection(w http.ResponseWriter, pr *proxyRequ
 // content-type check prevents double-writing response after partial stream
 // (learned this the hard way when users got html error messages appended to their json)
 func (a *Application) handleProxyError(w http.ResponseWriter, err error) {
+	// A backend answer without a Content-Type header looks "not started" to the header check
+	// below; when we tracked the writes ourselves, trust that instead.
+	started := w.Header().Get(constants.HeaderContentType) != ""
+	if t, ok := w.(*responseStartedWriter); ok {
+		started = t.started
+	}
+	if started {
+		return
+	}
 	// the size middleware caps the body reader; a chunked body that runs past the cap fails the read
 	var tooLarge *http.MaxBytesError
-	if errors.As(err, &tooLarge) && w.Header().Get(constants.HeaderContentType) == "" {
+	if errors.As(err, &tooLarge) {
 		http.Error(w, "Request body too large", http.StatusRequestEntityTooLarge)
 		return
 	}
-	if w.Header().Get(constants.HeaderContentType) == "" {
-		http.Error(w, fmt.Sprintf("Proxy error: %v", err), http.StatusBadGateway)
-	}
+	http.Error(w, fmt.Sprintf("Proxy error: %v", err), http.StatusBadGateway)
 }
 
 func (a *Application) stripRoutePrefix(ctx context.Context, path string) string {
